@@ -38,6 +38,10 @@ def gidx(b, c):
     return OFFS[b] + c
 
 
+class _NoCrossCheck(Exception):
+    pass
+
+
 class Scenario:
     """recs: [(b, c, state)]; stims: [(kind 'static'|'data', [(b,c)...] targets, name)]; clamps: [(kind, state, (b,c), name)]"""
 
@@ -154,11 +158,11 @@ def run_integrate(sc: Scenario, fns=None, checkpoint_lengths=None, return_states
             cell2, ds2, dc2 = sc.build()
             nat_all = None
             if all_states is not None:
-                raise RuntimeError("native cross-check not available for continued runs")
+                raise _NoCrossCheck()
             jx.integrate(cell2, delta_t=sc.dt, t_max=sc.t_max, solver=sc.solver, voltage_solver=sc.vs, data_stimuli=_numeric(ds2), data_clamps=_numeric(dc2),
                          checkpoint_lengths=checkpoint_lengths, return_states=return_states, **kw)
             out["engine_limit"] = True
-        except RuntimeError:
+        except _NoCrossCheck:
             out["engine_limit"] = True
         except Exception as e2:
             out["engine_limit"] = False
